@@ -218,6 +218,9 @@ func (c *Trait) PrepareRead(ctx context.Context, cacheEntry *TraitEntry, found b
 		return nil, ErrNotFound
 	}
 
+	// Expiration is read before the clock, otherwise a concurrent ExpireAll could stamp the entry
+	// with a time later than now and an expired entry would be served as fresh.
+	expireAt := atomic.LoadInt64(&cacheEntry.E)
 	now := ts(time.Now())
 
 	if cacheEntry != nil && c.Config.EvictionStrategy != EvictMostExpired {
@@ -229,7 +232,7 @@ func (c *Trait) PrepareRead(ctx context.Context, cacheEntry *TraitEntry, found b
 		}
 	}
 
-	if e := atomic.LoadInt64(&cacheEntry.E); e != 0 && e < now {
+	if expireAt != 0 && expireAt < now {
 		if c.Log.logDebug != nil {
 			c.Log.logDebug(ctx, "cache key expired", "name", c.Config.Name)
 		}
